@@ -93,7 +93,7 @@ Proof. exact unflatten_write_through. Qed.
 
 (* ---- tie to the current source: regenerated on every run by tools/ga2coq (coq/gen) ---- *)
 From Coq Require Import String.
-From GA Require Import Guards GuardTie.
+From GA Require Import Guards GuardTieTransmute.
 From GAGen Require Import GenGuards GenConstFns.
 Local Open Scope Z_scope.
 
@@ -107,7 +107,7 @@ Proof. exact tie_const_transmute. Qed.
 (* the six flatten / unflatten bodies as they stand in src/sequence.rs now (coq/gen/GenSigs.v): by
    value one size-checked const_transmute of `self`, by reference one transmute of the reference --
    nothing is read, written, copied or dropped by the crate *)
-From GA Require Import SigTie.
+From GA Require Import SigDefs.
 From GAGen Require Import GenSigs.
 Local Open Scope string_scope.
 Theorem C11_source_regroup_bodies :
@@ -122,7 +122,7 @@ Proof. repeat split. Qed.
 (* ---- T1: the one-expression bodies this property's code consists of besides the modelled core, as they stand
         in the source now (coq/gen/GenSigs.v gen_thin_bodies) ---- *)
 From Coq Require Import String.
-From GA Require Import SigTie.
+From GA Require Import SigDefs.
 From GAGen Require Import GenSigs.
 Local Open Scope string_scope.
 
